@@ -229,8 +229,10 @@ static inline ZParams zparams(Ctx &c, const ZFileOpts &o = ZFileOpts()) {
     if (c.gver >= 4 && q.by_ref && o.allow_trailing && c.rarely(4)) q.trailing = c.bytes(1 + c.draw(40));
     // a dictionary larger than the library's 32 KiB block buffers (the dictionary is chunk 0 and is read, copied and extracted by its own code paths)
     if (c.gver >= 4 && o.big_rate && o.allow_dict && c.rarely(o.big_rate)) {
-        size_t n = c.boolean() ? 32766 + c.draw(4) : 33000 + c.draw(o.big_huge ? 110000 : 40000); q.dict.resize(n); uint64_t seed = c.draw(0xffff);
+        uint64_t dk = c.draw(2); size_t n = dk == 0 ? 32766 + c.draw(4) : dk == 1 ? 32768 * (1 + c.draw(o.big_huge ? 3 : 1)) : 33000 + c.draw(o.big_huge ? 110000 : 40000); q.dict.resize(n); uint64_t seed = c.draw(0xffff);
         if (c.boolean()) fill_random(q.dict.data(), n, seed); else { pbt::Rng r(seed); for (auto &x : q.dict) x = (uint8_t)(r.next() % 23); }
+        // the end of the dictionary holds the beginning of the content, so that the chunks really are encoded against its last block
+        { size_t at = n; for (auto &ch : q.chunks) { size_t k = std::min(ch.size(), at > 1 ? at - 1 : 0); if (!k) break; at -= k; memcpy(q.dict.data() + at, ch.data(), k); if (n - at > 20000) break; } }
         if (q.level > 3) q.level = 3;
     }
     return q;
